@@ -24,12 +24,14 @@ type Case struct {
 	Scenario  srvx.Scenario `json:"scenario"`
 	Budget    int           `json:"budget"`
 	TimeFirst bool          `json:"time_first"`
+	All       bool          `json:"all_schedules,omitempty"`
 	Choices   []int         `json:"choices"`
 }
 
 type item struct {
 	sc     srvx.Scenario
 	budget int
+	all    bool // every schedule (no bound; preemption mode, sleep-set reduction)
 }
 
 var (
@@ -45,7 +47,7 @@ func mk(name string, cb int, handler string, control string, at int, clients ...
 
 func items(tier string) []item {
 	var out []item
-	add := func(b int, sc srvx.Scenario) { out = append(out, item{sc, b}) }
+	add := func(b int, sc srvx.Scenario) { out = append(out, item{sc: sc, budget: b}) }
 	thorough := tier == "thorough"
 	repr := []int{0, srvx.CbAccept, srvx.CbClose, 15}
 	// A: every callback combination, one client, the three basic endings
@@ -154,6 +156,13 @@ func items(tier string) []item {
 		sc.PanicOnConn = 1
 		add(2, sc)
 	}
+	// U: EVERY schedule (no deviation bound) of the smallest closed systems: connect-and-leave, and (thorough) one
+	// complete exchange; the trees of anything with a Shutdown in it are out of reach without a stronger reduction
+	out = append(out, item{sc: mk("U/all-schedules/connect-close", 0, "instant", "none", 0, s3), budget: 1 << 30, all: true})
+	out = append(out, item{sc: mk("U/all-schedules/connect-close", srvx.CbClose|srvx.CbAccept, "instant", "none", 0, s3), budget: 1 << 30, all: true})
+	if thorough {
+		out = append(out, item{sc: mk("U/all-schedules/one-exchange", 0, "instant", "none", 0, s1), budget: 1 << 30, all: true})
+	}
 	// G: the library's default 5 ms read timeout (idle polling is part of the schedule space)
 	g := mk("G/default-read-timeout", 15, "sleep10", "shutdown", 3, s1)
 	g.ReadTimeout = "default"
@@ -162,19 +171,31 @@ func items(tier string) []item {
 }
 
 type local struct {
-	execs, steps, newSteps, points int64
+	execs, steps, newSteps, points, pruned int64
 }
 
 func runItem(it item, shard, n int, res *ev.Result, lc *local, stop func() bool) {
-	base := Case{Scenario: it.sc, Budget: it.budget, TimeFirst: true}
+	base := Case{Scenario: it.sc, Budget: it.budget, TimeFirst: !it.all, All: it.all}
+	if it.all {
+		explore.UpperBudget = 2000
+		defer func() { explore.UpperBudget = 48 }()
+	}
 	outcomes := map[string]int64{}
 	body := func(x *explore.Ctx) {
-		r := srvx.Run(it.sc, vsched.Config{Choose: x.Choose, Budget: it.budget, TimeFirst: true})
+		cfg := vsched.Config{Choose: x.Choose, Budget: it.budget, TimeFirst: true}
+		if it.all {
+			cfg = vsched.Config{Choose: x.Choose, Budget: it.budget, Mode: vsched.ModePreemption, SleepSets: true, MaxSteps: 5000}
+		}
+		r := srvx.Run(it.sc, cfg)
 		if r.Out.Hung {
 			fmt.Printf("INCONCLUSIVE property=%s watchdog: an execution of %s stopped reaching scheduling points (choices %v)\n", prop, it.sc.Name, x.Choices())
 			os.Exit(3)
 		}
 		if x.Shadow {
+			return
+		}
+		if r.Out.Pruned {
+			lc.pruned++
 			return
 		}
 		lc.execs++
@@ -228,6 +249,7 @@ func run(tier string, shard, n int, res *ev.Result) {
 	res.Add("steps", lc.steps)
 	res.Add("tree_nodes", lc.newSteps)
 	res.Add("choice_points", lc.points)
+	res.Add("sleep_set_pruned", lc.pruned)
 	res.DistinctAdd("nontrivial", lc.execs)
 	if shard == 0 {
 		res.Add("scenarios", int64(len(its)))
@@ -249,7 +271,11 @@ func replay(check string, raw json.RawMessage, res *ev.Result) {
 	for i := 0; i < 3; i++ { // determinism: the same schedule must give the same observations every time
 		var r *srvx.Result
 		explore.Replay(func(x *explore.Ctx) {
-			r = srvx.Run(c.Scenario, vsched.Config{Choose: x.Choose, Budget: c.Budget, TimeFirst: c.TimeFirst, Trace: true})
+			cfg := vsched.Config{Choose: x.Choose, Budget: c.Budget, TimeFirst: c.TimeFirst, Trace: true}
+			if c.All {
+				cfg = vsched.Config{Choose: x.Choose, Budget: c.Budget, Mode: vsched.ModePreemption, SleepSets: true, MaxSteps: 5000, Trace: true}
+			}
+			r = srvx.Run(c.Scenario, cfg)
 		}, c.Choices)
 		sig := fmt.Sprint(r.Summary, r.V, len(r.Out.Trace))
 		if i > 0 && sig != prev {
